@@ -880,6 +880,10 @@ func (env *Env) evalCall(x *ast.CallExpr) Val {
 			s, _ := strconv.Unquote(x.Args[1].(*ast.BasicLit).Value)
 			tt := env.namedType(s, x)
 			return e.ifacePayload(v.C[0], tt)
+		case "asIface":
+			v := env.eval(x.Args[0])
+			s, _ := strconv.Unquote(x.Args[1].(*ast.BasicLit).Value)
+			return Val{T: env.namedType(s, x), C: []string{v.C[0]}}
 		case "nilref":
 			return Val{T: types.Typ[types.UnsafePointer], C: []string{"0"}}
 		case "asPtr":
